@@ -450,9 +450,12 @@ impl<E: Effect, R: CommandReceiver<E>, S: EventSender<E>> Worker<E, R, S> {
             .get_process_mut(id)
             .ok_or(EnvironmentError::ProcessNotFound(id))?;
 
-        // Check if the process failed
+        // A failed process cannot be resumed. That is the client's mistake (a REPL that keeps
+        // its session after a runtime error), not a reason to end this worker's loop with every
+        // other process on it: leave the process as it is, and the result request that follows
+        // reports its error again.
         if let Some(Err(_)) = &process.result {
-            return Err(EnvironmentError::ProcessFailed(id));
+            return Ok(());
         }
 
         // Check that the process is sleeping (it's persistent and has a successful result)
